@@ -53,6 +53,11 @@ pub fn len_mutations(e: &TypeEntry) -> Vec<Mutation> {
             ("2^24".into(), 1 << 24),
             ("2^32".into(), 1 << 32),
             ("2^60".into(), 1 << 60),
+            // counts whose product with an element size wraps around 2^64
+            ("2^61".into(), 1 << 61),
+            ("2^62+1".into(), (1 << 62) + 1),
+            ("2^63".into(), 1 << 63),
+            ("2^64/96".into(), u64::MAX / 96 + 1),
             ("2^64-1".into(), u64::MAX),
         ];
         if n > 0 {
